@@ -127,8 +127,18 @@ Check (C11_excluded_field_blames :
     chk_record cf fs (CTVar k excl) l (VRec vfs vt) = Err (Blame (lpol l))).
 Check (C11_nested_foralls_have_distinct_keys :
   forall t, alias_free t -> NoDup (fkeys (contract_of t))).
-Check (C11_noflip_variant_refuted : ~ enforces (MkCfg false true)).
-Check (C11_seethrough_variant_refuted : ~ enforces (MkCfg true false)).
+Check (C11_noflip_variant_refuted : ~ enforces (MkCfg false true false)).
+Check (C11_seethrough_variant_refuted : ~ enforces (MkCfg true false false)).
+Check (C11_dedup_variant_refuted :
+  run_line cfg_dedup 60 own_result = "OK [#1,#2]" /\ run_line cfg_real 60 own_result = "ERR Blame+").
+Check (C11_array_contract_twice_seals_twice :
+  forall n k l t p,
+    lookup_tyvar k (ltenv l) = Some p -> p <> lpol l ->
+    let once := wrap_elem (CVar k) l t in
+    let twice := wrap_elem (CVar k) l once in
+    force cfg_real (S n) twice = Ok (VSealed k (Th [("%e", once)] (Var "%e")) (flip l))
+    /\ force cfg_real (S (S n)) (Th [("%e", once)] (Var "%e"))
+       = Ok (VSealed k (Th [("%e", t)] (Var "%e")) (flip l))).
 Check (C11_cross_contract_keys_refuted :
   eval cfg_real 30 [] launder = Ok (VNum 2) /\ ~ blamed_outcome (eval cfg_real 30 [] launder)).
 Check (C11_per_instantiation_keys_refuted :
